@@ -123,6 +123,7 @@ func runC06(w *W) {
 	w.genStringBytes(off, judge)
 	w.genAlign([]int{0, 31, 62, 63, 64, 65, 127, 128}, []int{1407, 1408, 1409, 2816}, judge)
 	w.genAlignLarge([]int{64 << 10}, judge)
+	w.genBoundaryPairs(judge)
 	// tail-focused: every length 1..512 with interesting bytes at each of the last 64 positions
 	interesting := []byte{'"', '\\', '\n', '{', '}', '[', ']', ',', ':', 0x1f, 0x80, ' ', 'a'}
 	i := 0
